@@ -11,7 +11,7 @@ def _jobs(tier):
     mult = 1 if tier == "quick" else 20
     jobs = []
     for k in range(1, 17):
-        jobs.append(dict(sub="program", count=geo(k, 400, 6, 4) * mult, fix=dict(k=k, mtype=0)))
+        jobs.append(dict(sub="program", count=geo(k, 400, 6, 8) * mult, fix=dict(k=k, mtype=0), split=(2 if k >= 13 else 1)))
         jobs.append(dict(sub="program", count=geo(k, 150, 6, 3) * mult, fix=dict(k=k, mtype=1)))
     for k in range(0, 17):
         jobs.append(dict(sub="q120chain", count=geo(k, 200, 8, 4) * mult, fix=dict(k=k)))
@@ -24,7 +24,9 @@ PLAN = dict(
     rule="a case is a random well-typed straight-line program (3..40 ops, derived from the descriptor) over typed slots (int64 vectors, big "
          "vectors, DFT vectors, prepared scalars and matrices) of the public MODULE API: coefficient ops, normalize, dft, svp prepare/apply, "
          "vmp prepare/apply_dft/apply_dft_to_dft, idft / idft_tmp_a (consumes its input), big add/sub/mixed/rotate/automorphism, big and range "
-         "normalize, small single product; generated shapes, strides, buffer placement and in-place choices; FFT64 full set, NTT120 the subset "
+         "normalize, small single product, and the key-switch loop motif (several matrices applied to the same input, each product inverted "
+         "and normalised); generated shapes, strides, buffer placement (isolated / packed), scratch policy (one shared never-reinitialised "
+         "tmp_space for the whole program, or a fresh exactly-sized one per call) and in-place choices; FFT64 full set, NTT120 the subset "
          "that exists, plus the q120 kernel chain from_znx64->ntt->bbb product->intt->to_znx128. The exact interpreter (int128 polynomials, "
          "exact products, C05 digit oracle, C09 index maps) tracks magnitudes and only offers an op if the result stays inside the budget "
          "(FFT64 DFT-space bound sum|x|_1|y|_1 <= 2^40, |x|<=2^61 in coefficient space; NTT120 exact). Every integer output is compared with "
@@ -36,5 +38,6 @@ PLAN = dict(
               quick=dict(mode="replay"),
               thorough=dict(mode="campaign", workers=16, runs=150000)),
     required_classes=dict(all=["op:" + o for o in OPS] + ["chain:dft->product->idft->bigop->normalize", "module:NTT120", "cfg:generic", "q120chain"]
-                          + ["k:%d" % k for k in range(1, 17)]),
+                          + ["k:%d" % k for k in range(1, 17)] + ["scratch:one-shared-buffer", "scratch:fresh-per-call"]
+                          + ["loop:matrices-on-same-input,shared-scratch,k:%d" % k for k in range(1, 10)] + ["loop:matrices-on-same-input,shared-scratch,N>=1024"]),
 )
